@@ -33,6 +33,21 @@ MISSED = {
     "C08_d": "targets started at 1e-2 -> targets 1e-4 and 1e-3 (an absolute tolerance inside the constraint only shows at small targets with low-power inputs)",
     "C11_d": "each decoder object decoded only clean batches -> C11.c' : the same decoder first decodes an arbitrary noisy batch of the same size, then noise-free LLRs of other messages",
     "C17_d": "the recording feedback stages never produced the same feedback twice -> tensor-valued stages with changing, constant and saturating feedback for 1..5 rounds",
+    "C01_e": "generated generator matrices had their pivot columns at the far left (random matrices almost always do) -> pivot_G: full-rank matrices with PRESCRIBED pivot columns anywhere in 0..n-1 (k <= 8, n <= 48), rows mixed; also used by C02 and C04",
+    "C02_e": "decoders only saw float32 words -> the same words as int32 and int64 tensors, twice in a row on the same decoder object (equal syndromes meet again)",
+    "C03_e": "the quick catalogue stopped at Hamming mu = 4 and RM m = 4 -> all Hamming codes mu <= 6 and RM(r,m) m <= 5 in both tiers (constructions switch branch at larger parameters)",
+    "C05_e": "every round trip was preceded by a state reset -> eval-mode streams: one reset, then seven round trips of odd and even lengths on the same objects",
+    "C06_e": "pi/4-QPSK was only demodulated right after a reset -> C06.h_stream: in state-carrying (training) mode a sequence presented in pieces 3+5+2+4 gets the decisions and LLRs of the one-call presentation",
+    "C07_e": "supplied noise always had the signal's dtype -> complex noise on a real signal, double-precision noise on single-precision signals: output must be x + noise under torch's type promotion",
+    "C08_e": "all items of a generated batch had the same scale -> mixed_scales: items of one batch differ by amplitude factors 1e-2..1e4",
+    "C09_e": "a pipeline call carried at most a few dozen messages -> large-batch links (701 messages, several thousand symbols in one call) for every scheme up to order 64",
+    "C12_e": "p = 0 and p = 1 were checked on a few hundred symbols -> 10^7 symbols per channel and alphabet (4.10^7 thorough), so a probability clamped to 1e-6 cannot pass",
+    "C13_e": "a channel's noise parameter was fixed at construction -> parameter-update histories (avg_noise_power / snr_db set on a used object, same-seed noise must scale accordingly) in C13 and C07",
+    "C15_e": "the repetition soft-bit decoder was only used with its default thresholder and 'mean' combining -> all combine methods and four custom LLR-mode thresholders",
+    "C16_e": "every batch of the history pool had 8 bits per item -> 8/16/24 bits per item, so one metric object sees different numbers of blocks per item; library exceptions inside histories are failures",
+    "C17_e": "every add_step used a new stage object -> 'readd': the same stage object at several positions, then remove_step on a later occurrence",
+    "C19_e": "gradient batches never contained an all-zero item -> zero-item batches for all power/amplitude/PAPR constraints (gradients must stay finite)",
+    "C20_e": "inputs were always contiguous tensors -> the same values as a transposed (B1,B2,n) view and as a strided slice of a wider buffer",
 }
 for tag in sys.argv[1:]:
     pid = tag.split("_")[0]
